@@ -40,7 +40,8 @@ LEVEL_TEXT = ('The whole product of the listed trait values (all 64 qcow2 '
               'LUKS versions; QED) is built and every image is checked under '
               'every chunking of its cut set, through detect_file_format and '
               'through the CLI: nothing unsafe is ever accepted, every clean '
-              'image is.')
+              'image is; and no inspector of another format (signature absent) '
+              'accepts the stream.')
 LEVEL_NOTE = ('Trusted: the builders\' unsafe/clean classification (from the '
               'property statement). Images that are neither clean nor '
               'listed-unsafe carry no expectation. Irrelevant fields are '
@@ -385,6 +386,28 @@ def library_path(path):
     return S.safety_outcome(insp), str(insp)
 
 
+FOREIGN = ['qcow2', 'vhd', 'vhdx', 'vmdk', 'vdi', 'qed', 'iso', 'gpt', 'luks']
+
+
+def sig_present(data):
+    from vlib.checks.c03 import sig_present as sp
+    return sp(data)
+
+
+def foreign_verdict(name, data):
+    """safety_check() of the named format's inspector after the whole stream: 'ok' when it
+    returns normally, else the exception class (from feeding or from the check)."""
+    from oslo_utils.imageutils import format_inspector as fi
+    try:
+        insp = fi.get_inspector(name)()
+        insp.eat_chunk(data)
+        insp.finish()
+        insp.safety_check()
+        return 'ok'
+    except Exception as e:
+        return type(e).__name__
+
+
 def truncated_flag(im):
     return bool(im.facts.get('truncated'))
 
@@ -462,6 +485,16 @@ def _batch(job):
             if im.clean and outcome != 'ok' and not truncated_flag(im):
                 problem('clean-rejected', {'via': 'inspector, memoryview chunks', 'outcome': outcome},
                         {'via': 'typed'})
+        # (d) "matches the inspector's format": every *other* format's inspector, fed the whole
+        # stream, must not accept it (whatever it raises) unless its own signature is there too
+        for other in FOREIGN:
+            if other == fmt or other in sig_present(data):
+                continue
+            out['comparisons'] += 1
+            got = foreign_verdict(other, data)
+            if got == 'ok':
+                problem('mismatching-stream-accepted', {'inspector': other, 'via': 'foreign inspector'},
+                        {'via': 'foreign', 'inspector': other})
         # (b) + (c): real file, detect_file_format + safety_check, CLI
         with open(path, 'wb') as f:
             f.write(data)
@@ -607,7 +640,7 @@ def run(ctx):
                          {'recipe': [p['kind'], p['kw']], 'unsafe_traits': p['unsafe'],
                           'clean': p['clean'], 'detail': p['detail']},
                          {'image': p['image'], 'fmt': p['fmt'], 'what': p['what'],
-                          'via': p.get('via'), 'path': p.get('path'),
+                          'via': p.get('via'), 'path': p.get('path'), 'inspector': p.get('inspector'),
                           'unsafe': p['unsafe'], 'clean': p['clean']},
                          sigs=p['sigs'])
         check_faults(rep)
@@ -656,6 +689,9 @@ def replay(payload):
         S.checks_of(insp)[payload['check']].target_fn = boom
         got = S.safety_outcome(insp)
         return {'violates': not (isinstance(got, tuple) and got[0] == 'fail'), 'outcome': got}
+    if payload.get('via') == 'foreign':
+        got = foreign_verdict(payload['inspector'], data)
+        return {'violates': got == 'ok', 'outcome': got, 'inspector': payload['inspector']}
     tmpdir = tempfile.mkdtemp(prefix='verif-c02-')
     try:
         path = os.path.join(tmpdir, 'img')
